@@ -506,6 +506,34 @@ func init() {
 			}
 			panic(unsupported("nd.ParseInt of symbolic text"))
 		},
+		ndPath + ".Decimal": func(fr *frame, args []value) value {
+			scale := args[1].(int)
+			switch n := args[0].(type) {
+			case int64:
+				return formatDecimal(n, scale)
+			case *sym:
+				if scale == 0 {
+					return numstr{n: n}
+				}
+				if scale < 0 || scale > 22 {
+					panic(unsupported("nd.Decimal with a scale outside 0..22"))
+				}
+				if n.w < 64 {
+					n = symConv(types.Int64, n).(*sym)
+				}
+				// the model of ParseFloat needs an integer a double represents exactly: a sign-extended
+				// term of at most 53 bits (nd.Int16, nd.IntBits(.., <= 53), ...)
+				mm := sextWRe.FindStringSubmatch(n.e)
+				if mm == nil {
+					panic(unsupported("nd.Decimal of an integer term whose width is not evident (at most 53 bits are modelled)"))
+				}
+				if ext, _ := strconv.Atoi(mm[1]); 64-ext > 53 {
+					panic(unsupported("nd.Decimal of an integer of more than 53 bits"))
+				}
+				return decstr{n: n, scale: scale}
+			}
+			panic("nd.Decimal")
+		},
 		ndPath + ".Param": func(fr *frame, args []value) value {
 			if v, ok := fr.i.params[args[0].(string)]; ok {
 				return v
@@ -1197,6 +1225,17 @@ func extParseFloat(fr *frame, args []value) value {
 	if fs, ok := args[0].(fpstr); ok {
 		return tuple{fs.f, iface{}}
 	}
+	if ds, ok := args[0].(decstr); ok {
+		e := ds.n.e
+		if mm := sextRe.FindStringSubmatch(e); mm != nil {
+			e = mm[1]
+		}
+		pow := 1.0
+		for k := 0; k < ds.scale; k++ {
+			pow *= 10
+		}
+		return tuple{&sym{e: "(fp.div RNE ((_ to_fp 11 53) RNE " + e + ") " + fpConst(pow) + ")", k: symFP}, iface{}}
+	}
 	s, ok := args[0].(string)
 	if !ok {
 		panic(unsupported("strconv.ParseFloat of symbolic text"))
@@ -1584,4 +1623,24 @@ func extFields(fr *frame, args []value) value {
 		res = append(res, normStr(curp))
 	}
 	return res
+}
+
+// formatDecimal renders n x 10^-scale: sign, integer digits, and (scale > 0) a point and exactly scale digits.
+func formatDecimal(n int64, scale int) string {
+	neg := n < 0
+	u := uint64(n)
+	if neg {
+		u = uint64(-n)
+	}
+	d := strconv.FormatUint(u, 10)
+	if scale > 0 {
+		for len(d) <= scale {
+			d = "0" + d
+		}
+		d = d[:len(d)-scale] + "." + d[len(d)-scale:]
+	}
+	if neg {
+		d = "-" + d
+	}
+	return d
 }
